@@ -51,8 +51,16 @@ def surrogate_texts():
     return st.builds(lambda a, x, b: a + x + b, st.text(alphabet="abc é", max_size=6), sur, st.text(alphabet="xyz\udcc3\udca9", max_size=4))
 
 
+def spec_word_texts():
+    # passphrases / sentences that start with, equal or contain the literal strings the specification itself uses
+    words = ["mnemonic", "\uff4d\uff4e\uff45\uff4d\uff4f\uff4e\uff49\uff43", "Bitcoin seed", "mnemonicmnemonic", "MNEMONIC", "mnemoni",
+             "bip-entropy-from-k", "TREZOR"]
+    return st.builds(lambda a, w, b: a + w + b, st.sampled_from(["", "", " ", "x"]), st.sampled_from(words),
+                     st.one_of(st.just(""), st.text(alphabet="abc #2\u00e9", max_size=8)))
+
+
 def texts():
-    return st.one_of(S.unicode_text(), S.unicode_text(40), sentences(), st.just(""), long_texts(),
+    return st.one_of(spec_word_texts(), S.unicode_text(), S.unicode_text(40), sentences(), st.just(""), long_texts(),
                      S.unicode_text(), S.unicode_text(40), sentences(), surrogate_texts())
 
 
@@ -184,7 +192,7 @@ def nt_seed(case):
 def gen_ctor(tier):
     ent = st.sampled_from([16, 20, 24, 28, 32]).flatmap(lambda n: st.one_of(
         st.binary(min_size=n, max_size=n), st.just(b"\x00" * n), st.just(b"\xff" * n)))
-    return st.fixed_dictionaries({"entropy": ent, "pw": st.one_of(st.just(""), S.unicode_text(12)), "testnet": st.booleans()})
+    return st.fixed_dictionaries({"entropy": ent, "pw": st.one_of(st.just(""), S.unicode_text(12), spec_word_texts()), "testnet": st.booleans()})
 
 
 def check_ctor(case, ctx):
@@ -206,6 +214,18 @@ def check_ctor(case, ctx):
         ("from_extended_key", lambda: BaseWallet.from_extended_key(rm.xprv(vprv))),
         ("PaperWallet.from_extended_key", lambda: PaperWallet.from_extended_key(rm.xprv(vprv))),
     ]
+    # hex written in groups (white space between or around the bytes is what bytes.fromhex skips): a layout may be refused,
+    # but an accepted one denotes exactly these entropy bytes
+    hx = e.hex()
+    for label, txt in (("4-digit groups + newline", " ".join(hx[j:j + 4] for j in range(0, len(hx), 4)) + "\n"),
+                       ("byte pairs", " ".join(hx[j:j + 2] for j in range(0, len(hx), 2))),
+                       ("leading space + 8-digit groups", " " + " ".join(hx[j:j + 8] for j in range(0, len(hx), 8)))):
+        st_, wg = call(BaseWallet.from_entropy_hex, txt, pw, testnet)
+        if st_ == "exc":
+            ctx.count("grouped-hex-refused (not judged)")
+            continue
+        ctx.count("grouped-hex-accepted")
+        master_matches("C03/constructor[from_entropy_hex-grouped]", "from_entropy_hex(%r) [%s]" % (txt, label), wg.master, rm, testnet)
     wallets = []
     for name, f in routes:
         st_, w = call(f)
@@ -228,7 +248,7 @@ def check_ctor(case, ctx):
 
 
 def gen_new(tier):
-    return st.fixed_dictionaries({"words": st.sampled_from([12, 15, 18, 21, 24]), "pw": st.one_of(st.just(""), S.unicode_text(8)),
+    return st.fixed_dictionaries({"words": st.sampled_from([12, 15, 18, 21, 24]), "pw": st.one_of(st.just(""), S.unicode_text(8), spec_word_texts()),
                                   "testnet": st.booleans(), "route": st.integers(0, 5)})
 
 
